@@ -2,6 +2,8 @@
 From Coq Require Import String.
 From Coq Require Import List Arith QArith.
 Import ListNotations.
+From Coq Require Import Ring.
+From Yaqs Require Import LinAlg.TT.
 From Yaqs Require Import Base.Num Model.RankSelect Proofs.RankSelectP Gen.RankGen Proofs.RankGenP.
 
 (* discarded-weight mode, exact arithmetic: what is cut weighs at most the threshold, unless the cap forced it *)
@@ -79,6 +81,20 @@ Theorem C09_source_dw_rule : forall s thr minb maxb dyn, (0 <= thr)%Q -> let kee
   ((maxb < keep_dw_uncapped QN s thr minb)%nat /\ keep = Nat.max maxb (Nat.min (List.length s) minb)).
 Proof. intros s thr minb maxb dyn H. cbv zeta. rewrite split_keep_dw. exact (dw_rule s thr minb maxb dyn H). Qed.
 Print Assumptions C09_source_dw_rule.
+
+(* what "discarded weight" means for the state: over any commutative ring with an involution, if theta = U diag(s) V with orthonormal
+   columns of U and orthonormal rows of V (what the SVD returns), then keeping the first [keep] singular values changes theta by
+   EXACTLY the weight of the discarded ones: |theta - theta_keep|_F^2 = sum_{k >= keep} s_k conj(s_k).  Any matrix size, any rank. *)
+Theorem C09_truncation_error_is_discarded_weight : forall (K : Type) (k0 k1 : K) (kadd kmul ksub : K -> K -> K) (kopp cj : K -> K),
+  ring_theory k0 k1 kadd kmul ksub kopp (@eq K) -> (forall a b, cj (kadd a b) = kadd (cj a) (cj b)) ->
+  (forall a b, cj (kmul a b) = kmul (cj a) (cj b)) -> cj k0 = k0 -> cj k1 = k1 ->
+  forall m n rank keep U s V,
+  (forall k k', (k < rank)%nat -> (k' < rank)%nat -> bsum K k0 kadd m (fun a => kmul (U a k) (cj (U a k'))) = if Nat.eqb k k' then k1 else k0) ->
+  (forall k k', (k < rank)%nat -> (k' < rank)%nat -> bsum K k0 kadd n (fun b => kmul (V k b) (cj (V k' b))) = if Nat.eqb k k' then k1 else k0) ->
+  frob2 K k0 kadd kmul cj m n (svd_tail K k0 k1 kadd kmul m n rank keep U s V) =
+  bsum K k0 kadd rank (fun k => kmul (tail_ind K k0 k1 keep k) (kmul (s k) (cj (s k)))).
+Proof. exact truncation_error_is_discarded_weight. Qed.
+Print Assumptions C09_truncation_error_is_discarded_weight.
 
 Example C09_example : keep_dw QN [1; 1#2; 1#10; 1#100]%Q (2#100)%Q 1 8 false = 2%nat
   /\ (tail_weight QN [1; 1#2; 1#10; 1#100]%Q 2 <= 2#100)%Q /\ (2#100 < tail_weight QN [1; 1#2; 1#10; 1#100]%Q 1)%Q.
